@@ -29,10 +29,13 @@ ID = 'C04'
 TARGETS = ['PyIpmi.Props.C04', 'drv_c04']
 LEVEL = 'proof'
 RULE = ('RMCP: every ordering up to length 4 (thorough: 5, then 6 while time remains) of {matching reply, stale '
-        'sequence number, other command, other netFn, other LUN, bad header checksum, bad payload checksum, bare '
-        'bridge acknowledgement, time-out} x max_retries 0..3; the same up to length 3 with both quirks and '
+        'sequence number, other command, other netFn, other LUN, bad header checksum, bad payload checksum, BOTH checksums '
+        'bad by cancelling amounts (header +d, payload -d: the frame as a whole still sums to zero), both bad not '
+        'cancelling, bare bridge acknowledgement, time-out} x max_retries 0..3 (length 6: the nine single-fault letters); '
+        'every d = 1..255 x second damaged byte in {responder address, completion code, last data byte, payload checksum} '
+        'of the cancelling kind in front of the reply on all three transports; the same up to length 3 with both quirks and '
         'wrong-length datagrams; seeded random scripts over the extended alphabet (Send-Message envelopes 1-2 deep '
-        'around replies and stale frames, envelope with error completion code, short/empty/malformed datagrams) with '
+        'around replies, stale frames and doubly damaged replies, intact reply in a doubly damaged envelope, envelope with error completion code, short/empty/malformed datagrams) with '
         'random requests (netFn, LUN, command, payload, routing depth 0..3, sequence numbers incl. wrap-around); '
         'sessions of 2-6 requests on one interface object where late replies to earlier requests arrive during later '
         'ones AND what a request leaves unread (duplicates, replies to retransmissions, frames behind the reply) is '
@@ -42,7 +45,7 @@ RULE = ('RMCP: every ordering up to length 4 (thorough: 5, then 6 while time rem
         'and raw Send Message (App/34h) not bridged; wrapped replies with a corrupted wrapper byte (every wrapper field, '
         'depth 1-2); acknowledgements (cc 00h and error codes) that belong to an EARLIER transaction, during bridged and '
         'un-bridged requests.  ipmb-dev and Aardvark: every ordering up to length 3 of {reply, stale, other '
-        'cmd/netFn/LUN, bad checksums, idle poll, read error} x 4 timing patterns, random scripts (wrong length prefix, '
+        'cmd/netFn/LUN, bad header / payload / both checksums (cancelling and not), idle poll, read error} x 4 timing patterns, random scripts (wrong length prefix, '
         'short frames), sessions in which is_ipmc_accessible probes are requests like the others (directed: request, '
         'late reply, probe) and in which every fifth request / probe names a target with a routing of 1..4 hops '
         '(directed: [request,] routed request or probe with the reply of the local owner of that address ready, then a '
@@ -122,13 +125,19 @@ def translate(ctx):
 
 # =============================================================== stimuli (from the spec figure)
 BASE9 = ['match', 'stale', 'cmd', 'netfn', 'lun', 'hdr', 'pay', 'ack', 'T']
-EXT = BASE9 + ['wrapmatch', 'wrap2match', 'wrapstale', 'envcc', 'short', 'empty', 'hdr6', 'envshort', 'ack7',
+# a frame in BOTH fault classes at once: header checksum off by +d AND payload part off by e, every other field that of
+# the reply.  `both`: e = -d, the two errors cancel modulo 256 (the message as a whole still adds up to zero - a filter
+# that verifies ONE checksum over the whole frame takes it for intact); `bothnc`: they do not cancel
+BOTH = ['both', 'bothnc']
+BASE11 = BASE9 + BOTH
+EXT = BASE11 + ['wrapmatch', 'wrap2match', 'wrapstale', 'envcc', 'short', 'empty', 'hdr6', 'envshort', 'ack7',
                'M', 'Lmatch', 'Lstale', 'matchcc', 'stale2', 'stale32', 'echo',
-               'wrapbad', 'wrapbadcc', 'lateack', 'lateackcc', 'cmd34', 'envccold']
+               'wrapbad', 'wrapbadcc', 'lateack', 'lateackcc', 'cmd34', 'envccold', 'wrapboth', 'bothwrap']
 # frames that must be treated as unrelated whatever request is outstanding
-FOREIGN = ['lateack', 'lateackcc', 'envccold', 'wrapbad', 'wrapbadcc']
+FOREIGN = ['lateack', 'lateackcc', 'envccold', 'wrapbad', 'wrapbadcc', 'wrapboth', 'bothwrap']
 I2C9 = ['match', 'stale', 'cmd', 'netfn', 'lun', 'hdr', 'pay', 'I', 'E']
-I2C_EXT = I2C9 + ['short', 'Lmatch', 'matchcc', 'sendmsg', 'echo', 'empty', 'stale2', 'stale32']
+I2C11 = I2C9 + BOTH
+I2C_EXT = I2C11 + ['short', 'Lmatch', 'matchcc', 'sendmsg', 'echo', 'empty', 'stale2', 'stale32']
 
 
 def _reply(req, cur_seq, rq_sa, data, **kw):
@@ -140,7 +149,7 @@ def _reply(req, cur_seq, rq_sa, data, **kw):
 
 def frame_of(kind, req, seq, rq_sa, data):
     """IPMB frame (bytes) for a frame kind relative to request `req` carrying sequence `seq`."""
-    if kind in ('match', 'wrapmatch', 'wrap2match', 'Lmatch', 'wrapbad', 'wrapbadcc'):
+    if kind in ('match', 'wrapmatch', 'wrap2match', 'Lmatch', 'wrapbad', 'wrapbadcc', 'bothwrap'):
         f = _reply(req, seq, rq_sa, data)
     elif kind == 'matchcc':
         f = _reply(req, seq, rq_sa, b'\xc1')
@@ -167,10 +176,16 @@ def frame_of(kind, req, seq, rq_sa, data):
         f = _reply(req, seq, rq_sa, data, bad1=1)
     elif kind == 'pay':
         f = _reply(req, seq, rq_sa, data, bad2=0x80)
+    elif kind in ('both', 'wrapboth'):        # header checksum +d, payload checksum -d (d = 1..255 chosen by the data)
+        d = 1 + sum(data) % 255
+        f = _reply(req, seq, rq_sa, data, bad1=d, bad2=256 - d)
+    elif kind == 'bothnc':      # header checksum +d, payload checksum +d' with d + d' != 0 (mod 256)
+        d = 1 + sum(data) % 255
+        f = _reply(req, seq, rq_sa, data, bad1=d, bad2=d if d != 128 else 1)
     elif kind == 'sendmsg':
         f = T.send_msg_envelope(b'', rq_sa=rq_sa, seq=seq)
     elif ':' in kind:           # single-field variants: 'seq:5' = that field set to / offset by the value
-        fld, val = kind.split(':')
+        fld, val = kind.split(':')[:2]
         val = int(val)
         if fld == 'seq':
             f = _reply(req, seq, rq_sa, data, seq=val)
@@ -184,12 +199,21 @@ def frame_of(kind, req, seq, rq_sa, data):
             f = _reply(req, seq, rq_sa, data, bad1=val)
         elif fld == 'chk2':
             f = _reply(req, seq, rq_sa, data, bad2=val)
+        elif fld == 'cancel':
+            # 'cancel:<d>:<where>': header checksum byte +d and byte <where> of the payload part (3 = responder
+            # address, 6 = completion code, 7.. = data, -1 = the payload checksum itself) -d: two damaged bytes,
+            # both checksums invalid, the frame as a whole still adds up to zero
+            where = int(kind.split(':')[2])
+            f = T.damage_cancelling(_reply(req, seq, rq_sa, data), val, where)
         else:
             raise ValueError(kind)
     else:
         raise ValueError(kind)
-    if kind in ('wrapmatch', 'wrapstale'):
+    if kind in ('wrapmatch', 'wrapstale', 'wrapboth'):
+        # (`wrapboth`: an intact Send Message response around a reply whose two checksums are off by cancelling amounts)
         f = T.send_msg_envelope(f, rq_sa=rq_sa, seq=seq)
+    if kind == 'bothwrap':      # the intact reply inside a Send Message response whose two checksums are off by +d / -d
+        f = T.damage_cancelling(T.send_msg_envelope(f, rq_sa=rq_sa, seq=seq), 1 + sum(data) % 255, -1)
     if kind in ('wrapbad', 'wrapbadcc'):
         # the reply inside a Send Message response ONE byte of which is damaged: `wrapbad` a header / checksum
         # byte chosen by the data, `wrapbadcc` the completion code (00h -> an error code)
@@ -496,6 +520,12 @@ def _wire_seq(r):
     return None
 
 
+def _doubly_damaged(fhex):
+    """both checksums of the frame are invalid and the two errors cancel (the whole frame sums to zero)"""
+    f = bytes.fromhex(fhex)
+    return len(f) >= 7 and sum(f[:3]) % 256 != 0 and sum(f[3:]) % 256 != 0 and sum(f) % 256 == 0
+
+
 def judge_step(case, si, st, r, oracle_ans, cls):
     """Property clauses on one request of the real code.  -> [(signature, what, expected, observed)]."""
     tr = case['transport']
@@ -528,6 +558,11 @@ def judge_step(case, si, st, r, oracle_ans, cls):
             if tr == 'rmcp' and any(len(e) > 1 and e[1] and bytes.fromhex(e[1])[5:6] == b'\x34' for e in r['seen'][-1:]):
                 sig += ':damaged-wrapper'
                 what += ' (it was taken out of a Send Message response that is not intact)'
+            if any(_doubly_damaged(f) and got in (lean.hexs(bytes.fromhex(f)[6:-1]), lean.hexs(bytes.fromhex(f)[7:-1][6:-1]))
+                   for f in _frames_seen(case, st, r) if f):
+                sig += ':two-cancelling-corruptions'
+                what += (' (it is the data of a frame whose header checksum AND payload checksum are both invalid, by '
+                         'amounts that cancel modulo 256: the frame as a whole adds up to zero)')
             out.append((sig, what, 'one of %s or an error' % (allowed or 'none'), got))
     if r['out'][0] == 'ok' and probe:
         # "accessible" must rest on an intact reply to THIS probe (its own sequence number) among the frames read
@@ -734,7 +769,7 @@ def gen_rmcp_leftovers(ctx, judge):
     i = 0
     for mr in (0, 1, 2):
         for k in (1, 2, 3):
-            for surplus in ('match', 'stale', 'pay', 'cmd', 'lateackcc', 'wrapbad'):
+            for surplus in ('match', 'stale', 'pay', 'both', 'cmd', 'lateackcc', 'wrapbad'):
                 for same in (True, False):
                     i += 1
                     seq0 = (i * 5) % 64
@@ -771,6 +806,8 @@ def gen_rmcp_bridging(ctx, judge, rng):
             for kinds in (['match'], ['wrapmatch'], ['ack', 'match'], ['ack', 'wrapmatch'], ['lateack', 'match'],
                           ['lateackcc', 'match'], ['envccold', 'match'], ['wrapbad', 'match'], ['wrapbadcc', 'match'],
                           ['wrapbad', 'wrapmatch'], ['wrapbadcc', 'wrapmatch'], ['cmd34', 'match'], ['wrapbad'],
+                          ['both', 'match'], ['both', 'wrapmatch'], ['wrapboth', 'wrapmatch'], ['bothwrap', 'wrapmatch'],
+                          ['wrapboth'], ['bothwrap'], ['bothnc', 'match'],
                           ['wrapbadcc'], ['lateackcc'], ['stale', 'lateackcc', 'match']):
                 for mr in (0, 1, 2):
                     i += 1
@@ -785,7 +822,7 @@ def gen_rmcp_bridging(ctx, judge, rng):
 
 
 def gen_rmcp_sessions(ctx, judge, rng, n):
-    noise = ['stale', 'cmd', 'netfn', 'lun', 'hdr', 'pay', 'stale2', 'stale32', 'echo', 'wrapstale',
+    noise = ['stale', 'cmd', 'netfn', 'lun', 'hdr', 'pay', 'both', 'bothnc', 'stale2', 'stale32', 'echo', 'wrapstale',
              'lateack', 'lateackcc', 'wrapbad', 'cmd34']
     for _ in range(n):
         mr = rng.choice([0, 1, 2, 3])
@@ -800,7 +837,7 @@ def gen_rmcp_sessions(ctx, judge, rng, n):
                 kinds = _progress_script(rng, mr, noise, rng.random() < 0.4)
                 if rng.random() < 0.3:
                     # surplus datagrams behind the reply: still in the socket when the next request starts
-                    kinds += [rng.choice(['match', 'stale', 'pay', 'wrapmatch', 'lateackcc', 'cmd'])
+                    kinds += [rng.choice(['match', 'stale', 'pay', 'both', 'wrapmatch', 'lateackcc', 'cmd'])
                               for _ in range(rng.randrange(1, 4))]
             elif r < 0.6:
                 kinds = ['T'] * rng.randrange(1, mr + 3)
@@ -820,7 +857,7 @@ DT_PATTERNS = [(1, 1, 1, 1, 1, 1), (5, 5, 5, 5, 5, 5), (8, 7, 1, 1, 1, 1), (16, 
 def gen_i2c_exhaustive(ctx, judge, tr, maxlen):
     i = 0
     for n in range(maxlen + 1):
-        for kinds in itertools.product(I2C9, repeat=n):
+        for kinds in itertools.product(I2C11, repeat=n):
             for dts in (DT_PATTERNS if n else DT_PATTERNS[:1]):
                 i += 1
                 seq0 = (i * 11) % 64
@@ -854,7 +891,7 @@ def gen_i2c_random(ctx, judge, rng, tr, n):
                 req['routing'] = i2c_routing(rng, req['rs_sa'], rng.choice((1, 2, 2, 3, 4)))
             kinds = [rng.choice(alpha) for _ in range(rng.randrange(0, 8))]
             if rng.random() < 0.4:
-                kinds = [rng.choice(['stale', 'stale32', 'cmd', 'lun', 'pay', 'I', 'E']) for _ in range(rng.randrange(0, 4))] + ['match']
+                kinds = [rng.choice(['stale', 'stale32', 'cmd', 'lun', 'pay', 'both', 'bothnc', 'I', 'E']) for _ in range(rng.randrange(0, 4))] + ['match']
             dts = [rng.choice([0, 1, 2, 3, 5, 8, 15, 16, 17, 40]) for _ in kinds]
             step = _i2c_step(kinds, dts, req, pre, _data(rng))
             if probe:
@@ -921,7 +958,8 @@ def gen_i2c_probes(ctx, judge, tr):
 def gen_field_sweep(ctx, judge):
     """Every single-field mismatch on its own: one frame that differs from the reply in exactly one
     header field or checksum (all 63 other sequence numbers, 3 LUNs, 63 netFns, 254 commands, 255 wrong
-    values of each checksum), followed by the reply; retry budget 1 (RMCP)."""
+    values of each checksum) and every frame with BOTH checksums invalid by cancelling amounts (255 values of
+    d x 4 places of the second damaged byte), followed by the reply; retry budget 1 (RMCP)."""
     reqs = [{'rs_sa': 0x20, 'netfn': 6, 'lun': 0, 'cmd': 1, 'payload': ''},
             {'rs_sa': 0x82, 'netfn': 0x2c, 'lun': 2, 'cmd': 0xa5, 'payload': '00'}]
     for tr in ('rmcp', 'ipmbdev', 'aardvark'):
@@ -934,6 +972,9 @@ def gen_field_sweep(ctx, judge):
             variants += ['cmd:%d' % v for v in range(256) if v != req['cmd']]
             variants += ['chk1:%d' % v for v in range(1, 256)]
             variants += ['chk2:%d' % v for v in range(1, 256)]
+            # both checksums damaged by amounts that cancel: header checksum +d, one byte of the payload part -d
+            # (responder address, completion code, last data byte, the payload checksum itself), every d
+            variants += ['cancel:%d:%d' % (v, w) for v in range(1, 256) for w in (3, 6, -2, -1)]
             for v in variants:
                 if tr == 'rmcp':
                     case = {'transport': tr, 'cfg': {'mr': 1, 'igs': 0, 'igl': 0}, 'seq0': seq0,
@@ -1129,9 +1170,9 @@ def run(ctx):
         gen_i2c_routed(ctx, judge, tr)
     gen_rmcp_threads(ctx, 6 if quick else 40)
     gen_field_sweep(ctx, judge)
-    gen_rmcp_exhaustive(ctx, judge, 4 if quick else 5, (0, 1, 2, 3), BASE9)
+    gen_rmcp_exhaustive(ctx, judge, 4 if quick else 5, (0, 1, 2, 3), BASE11)
     for q in ((1, 0), (0, 1), (1, 1)):
-        gen_rmcp_exhaustive(ctx, judge, 3, (0, 1, 2, 3), BASE9 + ['Lmatch', 'Lstale'], quirks=q, tag='quirks')
+        gen_rmcp_exhaustive(ctx, judge, 3, (0, 1, 2, 3), BASE11 + ['Lmatch', 'Lstale'], quirks=q, tag='quirks')
     gen_rmcp_random(ctx, judge, rng, 3000 if quick else 40000)
     gen_rmcp_sessions(ctx, judge, rng, 1500 if quick else 20000)
     for tr in ('ipmbdev', 'aardvark'):
@@ -1141,7 +1182,7 @@ def run(ctx):
     if not quick:
         # length-6 orderings while time remains (one budget, then all)
         for mr in (2, 0, 1, 3):
-            if ctx.time_left() < 330:
+            if ctx.time_left() < 480:
                 ctx.notes.append('length-6 enumeration: stopped before max_retries=%d (time budget)' % mr)
                 break
             i = 0
